@@ -71,7 +71,7 @@ def items(tier, seed):
             for create_at in range(L):
                 if tier == "thorough" and L == 4 and create_at not in (0, 2):
                     continue
-                out.append((seq, create_at, k % 2, (k // 2) % (L + 1)))
+                out.append((seq, create_at, k % 2, (k // 2) % (L + 1), k % 3))
                 k += 1
     out.append(("events",))
     return out
@@ -81,7 +81,14 @@ def _switch(env, name, optimizer, live):
     if name in ("symA", "symB"):
         tag = name[-1]
         b = live.setdefault(name, sym_backend(tag))
-        pyhf.set_backend(b, custom_optimizer=optimizer)
+        # provenance is also tracked while the objects re-derive their tensors for a symbolic backend: a tensor
+        # viewer / parameter viewer that was not refreshed hands stale index arrays to the objects refreshed after it
+        B.prov_enable(True)
+        try:
+            pyhf.set_backend(b, custom_optimizer=optimizer)
+        finally:
+            live.setdefault("_viol", []).extend(B.prov_violations())
+            B.prov_enable(False)
     else:
         spec = _backend(name)
         if spec:
@@ -106,7 +113,7 @@ def _make_objects():
 def harness_for(item):
     if item[0] == "events":
         return _events
-    seq, create_at, optflag, delete_at = item
+    seq, create_at, optflag, delete_at, victim_mode = item
 
     def h(env):
         from ..harness import reset_pyhf
@@ -114,18 +121,29 @@ def harness_for(item):
         # concrete replay re-runs the same history with the same (symbolic-capable) backends, the symbols
         # being replaced by the counterexample's numbers: provenance is a property of these tensors
         reset_pyhf("numpy")
-        B.prov_enable(False)
+        B.prov_enable(False, track_index=True)
         live = {}
         opts = ["scipy", "minuit"]
         objs = None
         victim_ref = None
+        early_victims = []
         for pos, name in enumerate(seq):
             if pos == create_at:
+                # objects that will be deleted later are created BEFORE (victim_mode 1: one model, 2: a model and an
+                # interpolator) or after (0) the surviving ones, so that dead subscriptions precede / follow live ones
+                if victim_mode >= 1:
+                    early_victims.append(pyhf.Model(SPEC, poi_name="mu"))
+                if victim_mode == 2:
+                    early_victims.append(pyhf.interpolators.get(0)(HISTO))
                 objs = _make_objects()
-            if objs is not None and pos == delete_at and victim_ref is None:
-                victim = pyhf.Model(SPEC, poi_name="mu")
-                victim_ref = weakref.ref(victim.main_model)
-                del victim
+            if objs is not None and pos >= delete_at and victim_ref is None:
+                if early_victims:
+                    victim_ref = weakref.ref(early_victims[0].main_model)
+                    del early_victims[:]
+                else:
+                    victim = pyhf.Model(SPEC, poi_name="mu")
+                    victim_ref = weakref.ref(victim.main_model)
+                    del victim
                 gc.collect()
             try:
                 _switch(env, name, opts[(pos + optflag) % 2], live)
@@ -157,7 +175,7 @@ def harness_for(item):
             r["viewer.stitch"] = o["viewer"].stitch(parts)
             r["paramviewer.get"] = o["paramviewer"].get(tb.astensor(pars))
             outs[which] = r
-        viol = B.prov_violations()
+        viol = B.prov_violations() + live.get("_viol", [])
         B.prov_enable(False)
         env.holds("provenance", not viol, key="provenance:" + (viol[0][0] if viol else "clean"))
         if viol:
@@ -186,6 +204,7 @@ def harness_for(item):
                 pyhf.infer.mle.fit(tb.astensor(data), m)
             res[which] = stub_call["fun"]
         env.eq("fit-objective", res["old"], res["new"], key="inference")
+        B.prov_enable(False, track_index=False)
     return h
 
 
